@@ -34,14 +34,14 @@ fn pool_case(out: &mut Out, kind: PoolKind, funded: bool, fl: u32, p: u32) {
         let x = 7_001u128 + ((fl + p) % 2) as u128;   // odd: proceeds directed to the fee collector; even: to the trader
         let replay = json!({"kind": "pool_gate", "pool": kind.name(), "state": if funded { "funded" } else { "empty" },
             "switches_deposits_withdrawals_swaps": [flags.0, flags.1, flags.2], "switch_bits": fl, "funded": funded, "pool_index": kind.index(), "path": path_name(p), "path_index": p, "amount_scale": x.to_string()});
-        if a.set_flags(OWNER, flags) != 0 || a.flags() != flags { out.monitor_fail("C17", "the owner could not set the pause switches", replay.clone()); return; }
+        if a.set_flags_with(OWNER, flags, (fl + p) % 3 == 1) != 0 || a.flags() != flags { out.monitor_fail("C17", "the owner could not set the pause switches", replay.clone()); return; }
         let a0 = a.dump();
         let tc = b.exec(p, x);
         let b1 = b.dump();
         let c1 = a.exec(p, x);
         let a1 = a.dump();
         let frame1 = if c1 != 0 { a1 == a0 } else { a1 == b1 };
-        let back = a.set_flags(OWNER, (true, true, true));
+        let back = a.set_flags_with(OWNER, (true, true, true), (fl + p) % 3 == 2);
         let (c2, frame2) = if c1 != 0 && tc == 0 { let c2 = a.exec(p, x); (c2, a.dump() == b1) } else { (9, a.dump() == a1) };
         // ---- the property's own predicate on the implementation
         out.monitor_evals += 1;
